@@ -1222,7 +1222,7 @@ def r1412(ctx, R):
             R.ob('R14.12', '%s:last-modified-is-a-time' % f.qname, ok,
                  'the value assigned to response.last_modified is never '
                  'None', why, func=f, node=s)
-    R.count('R14.12', n, 20)
+    R.count('R14.12', n, 15)
 
 
 _run_c14c = run
